@@ -11,10 +11,10 @@ package dtls13
 
 // zzPSKLayout is the result of the reference pre_shared_key (ClientHello) decoder.
 type zzPSKLayout struct {
-	ok             bool
-	idOff, idLen   []int // identity bytes
-	ageOff         []int // 4-byte obfuscated_ticket_age
-	bOff, bLen     []int // binder bytes
+	ok           bool
+	idOff, idLen []int // identity bytes
+	ageOff       []int // 4-byte obfuscated_ticket_age
+	bOff, bLen   []int // binder bytes
 }
 
 // zzPSKRef decodes the ClientHello pre_shared_key payload by RFC 8446 §4.2.11:
@@ -102,7 +102,17 @@ func zzPSKCheck(data []byte) zzPSKLayout {
 // fully symbolic bytes (every value of the field).
 func zzPSKField(out []byte, w, v int, free bool, name string) []byte {
 	if free {
-		return append(out, zzsymBytes(name, w)...)
+		f := zzsymBytes(name, w)
+		if w == 2 {
+			// concrete case split of the 16-bit value (below 64 / 64 and above): covers every value and
+			// keeps the number of slice bounds the engine has to enumerate per path below its cap
+			if zzsymChoice("half", 2) == 0 {
+				zzsymAssume(zzsymAnd(f[0] == 0, f[1] < 64))
+			} else {
+				zzsymAssume(zzsymOr(f[0] != 0, f[1] >= 64))
+			}
+		}
+		return append(out, f...)
 	}
 	if w == 2 {
 		return append(out, byte(v>>8), byte(v))
